@@ -1,6 +1,6 @@
 SPECIFICATION Spec
 CONSTANTS
-  MaxL = 6
+  MaxL = 7
   Variants <- Variants_all
 CHECK_DEADLOCK FALSE
 INVARIANT TypeOK
